@@ -389,6 +389,10 @@ RULES.append(("C13.g", "state-mutation inventory: no new site that changes the c
 def rule_worker_loops(ctx):
     from . import c04
     c04.mt_worker_loop_rule(ctx)
+    # no runnable task is dropped (= cancelled) or stranded when queues overflow or work is stolen
+    c04.rule_task_handover(ctx)
+    c04.rule_search_handover(ctx)
+    c04.rule_pool_bits(ctx)
 
 
 RULES.append(("C13.h", "run loops stop only when the worker's queues are empty (a task left in a parked worker's queue is a wake-up that does not lead to a poll)", rule_worker_loops))
